@@ -126,15 +126,33 @@ def cont2d_geom(n0, n1):
     g = image_geom(n0, n1, "C")
     return RefGeom(n0 * n1, (n0, n1), g.par2fun, fun2par=g.fun2par, fun2vec=None, vec2fun=None, funvec_dim=None)
 
+def _softmax(x):
+    e = np.exp(x - np.max(x))
+    return e / np.sum(e)
+
 MAPS = {
     "sq1": (lambda x: x ** 2 + 1, lambda y: np.sqrt(y - 1)),
     "exp": (lambda x: np.exp(x), lambda y: np.log(y)),
     "affine": (lambda x: 2.0 * x + 3.0, lambda y: (y - 3.0) / 2.0),
+    # maps that couple the entries of ONE function value (defined per sample); all of them return an array of
+    # the input's shape also when handed a whole block of samples, where they would couple entries across samples
+    "softmax": (_softmax, None),
+    "unitnorm": (lambda x: x / np.linalg.norm(x), None),
+    "sumnorm": (lambda x: x / np.sum(x), None),
+    "sortlast": (lambda x: np.sort(x), None),                       # sorts along the last axis of what it is given
+    "cumsum": (lambda x: np.cumsum(x).reshape(np.shape(x)), lambda y: np.diff(np.ravel(y), prepend=0.0).reshape(np.shape(y))),
+    "demean": (lambda x: x - np.mean(x), None),
+    "maxscale": (lambda x: x / np.max(np.abs(x)), None),
+    # maps returning a view of / the very object they were given
+    "flipview": (lambda x: x[::-1], lambda y: y[::-1]),
+    "selfview": (lambda x: x, lambda y: y),
 }
+COUPLING_MAPS = ["softmax", "unitnorm", "sumnorm", "sortlast", "cumsum", "demean", "maxscale"]
+ALL_MAPS = ["sq1", "exp", "affine", "flipview", "selfview"] + COUPLING_MAPS
 
 def mapped_geom(base, mapname, with_imap=True):
     fmap, imap = MAPS[mapname]
-    f2p = (lambda f: base.fun2par(imap(np.asarray(f, dtype=float)))) if (with_imap and base.fun2par is not None) else None
+    f2p = (lambda f: base.fun2par(imap(np.asarray(f, dtype=float)))) if (with_imap and imap is not None and base.fun2par is not None) else None
     return RefGeom(base.par_dim, base.fun_shape, lambda p: fmap(base.par2fun(p)), fun2par=f2p,
                    fun2vec=base.fun2vec, vec2fun=base.vec2fun, funvec_dim=base.funvec_dim)
 
